@@ -375,7 +375,7 @@ func foldBin(op Op, x, y uint64, w uint8) (uint64, bool) {
 
 func (f *Factory) Bin(op Op, a, b *Term) *Term {
 	if a.W != b.W {
-		panic(fmt.Sprintf("term width mismatch %s: %d vs %d", opNames[op], a.W, b.W))
+		panic(fmt.Sprintf("symgo: internal: term width mismatch %s: %d vs %d", opNames[op], a.W, b.W))
 	}
 	w := a.W
 	if a.Op == OpConst && b.Op == OpConst {
@@ -558,7 +558,7 @@ func foldCmp(op Op, x, y uint64, w uint8) bool {
 // Cmp builds a comparison (OpEq, OpUlt, OpUle, OpSlt, OpSle).
 func (f *Factory) Cmp(op Op, a, b *Term) *Term {
 	if a.W != b.W {
-		panic(fmt.Sprintf("cmp width mismatch %d vs %d", a.W, b.W))
+		panic(fmt.Sprintf("symgo: internal: cmp width mismatch %d vs %d", a.W, b.W))
 	}
 	if a.W == 0 {
 		if op != OpEq {
